@@ -155,7 +155,9 @@ def rule_validators(repo: Repo, rid: str = "C05.validators", cls: str = "Problem
                     if "askey" in x:
                         continue
                     for i, st in enumerate(x[:-1]):
-                        if (st == "in:value" or st.startswith("in:setval@")) and x[i + 1] == "call:values" and "attr:type" in x[:i]:
+                        # the type became a VALUE of a dict (display / comprehension / d[k] = v / dict(zip(keys, values))) that is read back with .values()
+                        as_value = st == "in:value" or st.startswith("in:setval@") or (st == "arg0:dict" and i > 0 and x[i - 1] == "arg1:zip")
+                        if as_value and x[i + 1] == "call:values" and "attr:type" in x[:i]:
                             # the dict's keys: the argument tokens?
                             keyed = any(("in:key" in y or any(s_.startswith("in:setkey@") for s_ in y)) and y[0].startswith("param:") and
                                         any(s_.startswith("slice:1") for s_ in y) for y in p.trace(c.func.value, keys=False) | tr)
